@@ -206,7 +206,7 @@ void run_case(uint64_t idx, Rng& r) {
   count("mc_cells");
   count("mc_trials", cell.trials);
   count(std::string("mc_") + fam + "_" + (all_exact ? "exact" : range_class(cell.lg_k, n)));
-  sig(mix64(mix64(cell.fam, cell.lg_k), mix64(n, static_cast<uint64_t>(R.sd * 1e12))));
+  sig(mix64(mix64(cell.fam, cell.lg_k), mix64(n, dbits(std::floor(R.sd * 1e12)))));
   if (want_sample()) sample("{\"cell\":" + jstr(ctx) + ",\"trials\":" + std::to_string(cell.trials) + ",\"result\":" + jstr(R.to_string()) + "}");
 }
 
